@@ -235,6 +235,12 @@ theorem operands_unchanged_structural :
     Gen.ufuncConvertsCopy = true ∧ Gen.ufuncWritesSelf = false ∧
     Gen.ufuncResultWaveUnitFromSelf = true ∧ Gen.ufuncResultValueUnitFromSelf = true := ⟨rfl, rfl, rfl, rfl⟩
 
+/-- which operand kinds `Spectrum._ufunc` combines element-wise on the unchanged grid (regenerated from its `isinstance` tuple):
+Python numbers, NumPy scalars of every type (`np.generic`), lists/tuples and arrays -/
+theorem scalar_kinds_include_numpy :
+    "int" ∈ Gen.ufuncElementwiseTypes ∧ "float" ∈ Gen.ufuncElementwiseTypes ∧ "np.generic" ∈ Gen.ufuncElementwiseTypes ∧
+    "np.ndarray" ∈ Gen.ufuncElementwiseTypes ∧ "list" ∈ Gen.ufuncElementwiseTypes := by decide
+
 /-- scalar and equal-length vector operands act element-wise on the unchanged wavelength grid -/
 theorem scalar_vector_elementwise (op : ℚ → ℚ → ℚ) (s : Spectrum) (c : ℚ) (v : List ℚ) (hv : v.length = s.value.length) :
     (ufuncScalar op s c).wave = s.wave ∧ (ufuncScalar op s c).value = s.value.map (op · c) ∧
@@ -260,6 +266,86 @@ theorem unit_handover_partial (op : ℚ → ℚ → ℚ) (s1 s2 : USpec) (m : Sa
     split at hr
     · cases hr
     · cases hr; exact ⟨rfl, rfl⟩
+
+/-- END TO END, from valid operands: two well-formed spectra with valid (positive, strictly increasing) grids of at least two
+samples, any of the named sampling options ⇒ the operation succeeds; its grid is a valid wavelength grid (so the result IS
+a spectrum) with one value per wavelength, starts at the smaller minimum and ends at the larger maximum, has the positive
+step of `grid_step_le_requested`, and its values are `op(S₁(g), S₂(g))` (what `Sᵢ` is: `operand_is_interpolant`,
+`operand_guard_band`). All side conditions of the component theorems (0 < Δ, 0 < min, tol < span, 1 ≤ N) are derived here. -/
+theorem ufunc_of_valid (op : ℚ → ℚ → ℚ) (s1 s2 : Spectrum) (h1 : WF s1) (h2 : WF s2)
+    (v1 : validWave s1.wave = true) (v2 : validWave s2.wave = true) (l1 : 2 ≤ s1.wave.length) (l2 : 2 ≤ s2.wave.length)
+    (m : Sampling) (hm : ∀ d, m ≠ .step d) (fill : ℚ) :
+    ∃ r lo1 hi1 lo2 hi2 dw, ufunc op s1 s2 m fill = .ok r ∧
+      minL s1.wave = some lo1 ∧ maxL s1.wave = some hi1 ∧ minL s2.wave = some lo2 ∧ maxL s2.wave = some hi2 ∧
+      samplingOf m s1.wave s2.wave = some dw ∧ 0 < dw ∧ 1 ≤ (gridNum (min lo1 lo2) (max hi1 hi2) dw).toNat ∧
+      validWave r.wave = true ∧ r.wave.length = r.value.length ∧
+      r.wave.head? = some (min lo1 lo2) ∧ r.wave.getLast? = some (max hi1 hi2) ∧
+      r.value = r.wave.map (fun g => op (operandAt s1 lo1 hi1 (gridTol dw) fill g) (operandAt s2 lo2 hi2 (gridTol dw) fill g)) := by
+  obtain ⟨lo1, hi1, d1, _, _, hmin1, hmax1, hd1, hp1, hs1, hpos1⟩ := ends_of_valid s1 h1 v1 l1
+  obtain ⟨lo2, hi2, d2, _, _, hmin2, hmax2, hd2, hp2, hs2, hpos2⟩ := ends_of_valid s2 h2 v2 l2
+  -- the sampling, positive and not larger than the union span
+  have hspan1 : hi1 - lo1 ≤ max hi1 hi2 - min lo1 lo2 := by
+    have := le_max_left hi1 hi2; have := min_le_left lo1 lo2; linarith
+  have hspan2 : hi2 - lo2 ≤ max hi1 hi2 - min lo1 lo2 := by
+    have := le_max_right hi1 hi2; have := min_le_right lo1 lo2; linarith
+  obtain ⟨dw, hdw, hdwpos, hdwle⟩ : ∃ dw, samplingOf m s1.wave s2.wave = some dw ∧ 0 < dw ∧ dw ≤ max hi1 hi2 - min lo1 lo2 := by
+    cases m with
+    | min => exact ⟨min d1 d2, by simp [samplingOf_eq, hd1, hd2], lt_min hp1 hp2, le_trans (min_le_left _ _) (le_trans hs1 hspan1)⟩
+    | left => exact ⟨d1, by simp [samplingOf_eq, hd1], hp1, le_trans hs1 hspan1⟩
+    | right => exact ⟨d2, by simp [samplingOf_eq, hd2], hp2, le_trans hs2 hspan2⟩
+    | step d => exact absurd rfl (hm d)
+  have htol : gridTol dw < max hi1 hi2 - min lo1 lo2 := by
+    rw [gridTol_eq]
+    have : dw / 1000000000 < dw := by
+      rw [div_lt_iff₀ (by norm_num)]; linarith
+    linarith
+  have hposmin : 0 < min lo1 lo2 := lt_min hpos1 hpos2
+  -- the operation succeeds
+  have hok : ∃ r, ufunc op s1 s2 m fill = .ok r := by
+    simp [ufunc, interpCommon, hmin1, hmax1, hmin2, hmax2, hdw]
+  obtain ⟨r, hr⟩ := hok
+  obtain ⟨a1, b1, a2, b2, d, e1, e2, e3, e4, e5, hw, hv⟩ := ufunc_pointwise op s1 s2 m fill r hr
+  rw [hmin1] at e1; rw [hmax1] at e2; rw [hmin2] at e3; rw [hmax2] at e4; rw [hdw] at e5
+  cases e1; cases e2; cases e3; cases e4; cases e5
+  have hN := gridNum_pos _ _ _ hdwpos htol
+  have hvalid := ufunc_result_valid op s1 s2 m fill r hr lo1 hi1 lo2 hi2 dw hmin1 hmax1 hmin2 hmax2 hdw hdwpos hposmin htol
+  refine ⟨r, lo1, hi1, lo2, hi2, dw, hr, hmin1, hmax1, hmin2, hmax2, hdw, hdwpos, by omega, hvalid.1, hvalid.2, ?_, ?_, hv⟩
+  · rw [hw]; exact (grid_spans_union_start _ _ _ (by omega)).1
+  · rw [hw]; exact grid_spans_union_end _ _ _ (by omega)
+
+/-- the guard band of `_interp_common`: a grid point within `tol` below (above) an operand's range is treated as its first
+(last) wavelength — the interpolant evaluated at the clipped abscissa, neither the fill value nor an extrapolation -/
+theorem operand_guard_band (s : Spectrum) (lo hi tol fill g : ℚ) (ht : 0 ≤ tol) (hlh : lo ≤ hi) :
+    (lo - tol ≤ g → g < lo → operandAt s lo hi tol fill g = interpAt s.wave s.value fill fill lo) ∧
+    (hi < g → g ≤ hi + tol → operandAt s lo hi tol fill g = interpAt s.wave s.value fill fill hi) := by
+  constructor
+  · intro h1 h2
+    have b : g ≤ hi + tol := by linarith
+    simp [operandAt, h1, b, clip, h2]
+  · intro h1 h2
+    have a : lo - tol ≤ g := by linarith
+    have c1 : ¬ g < lo := by linarith
+    simp [operandAt, a, h2, clip, c1, h1]
+
+/-- commutativity at the level the driver runs, operands in the same units: a∘b = b∘a (with left↔right sampling swapped) -/
+theorem ufuncU_comm_same_units (op : ℚ → ℚ → ℚ) (hc : ∀ a b, op a b = op b a) (s1 s2 : USpec) (hw : s1.wu = s2.wu) (hv : s1.vu = s2.vu)
+    (m : Sampling) (fill : ℚ) : ufuncU op s2 s1 m.swap fill = ufuncU op s1 s2 m fill := by
+  simp only [ufuncU, hw, hv, if_true, op_comm op hc ⟨s1.wave, s1.value⟩ ⟨s2.wave, s2.value⟩ m fill]
+
+
+/-- commutativity ACROSS units (unitless spectra, any commutative operator): b∘a, computed in b's unit with the sampling
+re-expressed in that unit and left↔right swapped, is a∘b re-expressed in b's unit -/
+theorem ufuncU_comm_across_units (op : ℚ → ℚ → ℚ) (hc : ∀ a b, op a b = op b a) (s1 s2 : USpec)
+    (h1 : s1.vu = none) (h2 : s2.vu = none) (m : Sampling) (fill : ℚ)
+    (hdw : ∀ dw, samplingOf m s1.wave (if s2.wu = s1.wu then s2 else toWave s1.wu s2).wave = some dw → dw ≠ 0) :
+    ufuncU op s2 s1 ((m.scale (waveTo s1.wu s2.wu)).swap) fill = (ufuncU op s1 s2 m fill).map (toWave s2.wu) := by
+  have hinv := unit_invariance_unitless op s1 s2 h1 h2 s2.wu m fill hdw
+  rw [toWave_self s2] at hinv
+  have hA_wu : (toWave s2.wu s1).wu = s2.wu := by simp [toWave_eq, h1]
+  have hA_vu : (toWave s2.wu s1).vu = s2.vu := by simp [toWave_eq, h1, h2]
+  rw [← hinv, (unit_handover_partial op s2 s1 _ fill).1]
+  exact ufuncU_comm_same_units op hc (toWave s2.wu s1) s2 hA_wu hA_vu _ fill
+
 
 /-- non-vacuity: nested ranges, fill 0 -/
 example : ufunc (· + ·) ⟨[1, 2, 3], [10, 20, 30]⟩ ⟨[2, 3, 4, 5], [1, 1, 1, 1]⟩ .min 0
